@@ -93,13 +93,14 @@ func runC42(c *Ctx) {
 	c.Note("C42.L1: %d accesses to DB.mu-protected fields analysed", n)
 	c.Ob("C42.L1", nil, "DB.mu-protected field accesses analysed", "", n > 50, "")
 	// L2: lock order DB.mu -> commitPipeline.mu is forbidden (commit.mu is acquired first)
+	commitMuF := c.Field("C42.L2", "p.commitPipeline.mu")
 	commitLock := M{Desc: "commitPipeline.mu.Lock", F: func(in ssa.Instruction) bool {
 		cc := getCallCommon(in)
 		if cc == nil {
 			return false
 		}
 		ci := infoOfCommon(cc)
-		return ci.Short == "Lock" && ci.Recv != nil && strings.HasPrefix(ci.QName, "sync.(*Mutex)") && (pathHasSuffix(pathOf(ci.Recv), "commit.mu") || pathHasSuffix(pathOf(ci.Recv), "p.mu"))
+		return ci.Short == "Lock" && ci.Recv != nil && strings.HasPrefix(ci.QName, "sync.(*Mutex)") && fieldOfValue(ci.Recv) == commitMuF
 	}}
 	nOrder := 0
 	for _, fn := range pebbleFuncs(c) {
